@@ -94,6 +94,22 @@ def vacate (pc : PeerCfg) (failed : Nat) (ch : Chosen) (pre : PinMap) : Acc :=
 /-- `Pin.ExpiredAt(now)`: `!ExpireAt.IsZero() && ExpireAt.Before(now)` with abstract instants -/
 def expired (p : Pin) : Bool := p.opts.expire == .past
 
+/-- `ExpireAt` on a concrete clock (unix nanoseconds): Go's zero `time.Time`, or an instant -/
+inductive Stamp where
+  | zero
+  | at (t : Int)
+  deriving DecidableEq, Repr
+
+/-- `Pin.ExpiredAt(now)` on the concrete clock: never for the zero time or the unix epoch, else strictly before -/
+def expiredAt (now : Int) : Stamp → Bool
+  | .zero => false
+  | .at t => t != 0 && decide (t < now)
+
+/-- the abstract instant the shared pin model uses for a stamp, as seen at `now` -/
+def Stamp.abs (now : Int) : Stamp → Expiry
+  | .zero => .zero
+  | .at t => if t == 0 then .unixZero else if t < now then .past else .future (t - now).toNat
+
 def syncCond (w : World) (pc : PeerCfg) (pin : Pin) : Bool := expired pin && isClosest w pc.self none pin.cid
 
 /-- `StateSync`: unpin expired pins this peer is closest to -/
